@@ -1209,6 +1209,7 @@ type mlCase struct {
 	Cert    int    `json:"cert"`    // 0 genuine MLS, 1 attacker MLS issued by attacker CSCA with AKI = genuine SKI, 2 same with AKI = attacker SKI, 3 self-signed
 	Root    int    `json:"root"`    // 0 genuine CSCA, 1 other key with the genuine SKI, 2 attacker's CSCA
 	Embed   int    `json:"embed"`   // 0 only the signer certificate embedded, 1 the attacker's CSCA certificate embedded as well (embedded certificates are never trust anchors)
+	EKU     int    `json:"eku"`     // extendedKeyUsage of the signer certificate: 0 id-icao-mrtd-security-masterListSigner (critical, Doc 9303-12), 1 none (the profile of a document signer), 2 serverAuth only (critical)
 }
 
 func mlTruth(m mlCase) []string {
@@ -1230,6 +1231,9 @@ func mlTruth(m mlCase) []string {
 	if issuer != root {
 		bad = append(bad, "chain:issuer-key-is-not-the-root")
 	}
+	if m.EKU != 0 {
+		bad = append(bad, "signer-is-not-a-master-list-signer")
+	}
 	return bad
 }
 
@@ -1246,9 +1250,16 @@ func mlBuild(m mlCase) (ml []byte, root []byte, want [][]byte, err error) {
 	nameNL := gOK.Spec.Subject
 	mlsName := refpki.NewName("NL", "Reference State", "Master List Signer", "MLS 01")
 	so := refpki.SignOpts{Hash: p.Hash}
+	var extra []refpki.Ext
+	switch m.EKU {
+	case 0:
+		extra = []refpki.Ext{refpki.EKUMasterListSigner()}
+	case 2:
+		extra = []refpki.Ext{{OID: []int{2, 5, 29, 37}, Critical: true, Value: refpki.DER(refpki.Seq(refpki.OID([]int{1, 3, 6, 1, 5, 5, 7, 3, 1})))}}
+	}
 	mk := func(key, signer *refpki.Key, aki []byte, issuer refpki.Name) *refpki.Cert {
 		return refpki.IssueCert(refpki.CertSpec{Serial: big.NewInt(0x2001), Issuer: issuer, Subject: mlsName, NotBefore: date(2020), NotAfter: date(2025),
-			Key: key, AKI: aki, KeyUsage: refpki.KUDigitalSignature}, signer, so)
+			Key: key, AKI: aki, KeyUsage: refpki.KUDigitalSignature, Extra: extra}, signer, so)
 	}
 	D2, DA, G, A := w.keys[roleD2], w.keys[roleDA], w.keys[roleG], w.keys[roleA]
 	certs := []*refpki.Cert{
@@ -1326,34 +1337,36 @@ func runMasterList(c *vc.Ctx) {
 						for root := 0; root < 6; root++ {
 							embed := root / 3
 							root := root % 3
-							n++
-							if !c.Mine() {
-								continue
-							}
-							m := mlCase{"ml", pn, content, md, sig, cert, root, embed}
-							bad := mlTruth(m)
-							acc, poolOK, errs, pnc := mlRun(m)
-							c.AddTraces(1)
-							c.Distinct(fmt.Sprintf("ml|%v", m))
-							switch {
-							case pnc != "":
-								c.Outcome(sec, "panic")
-								c.Violation(sec, "panic/master-list/"+pnc, fmt.Sprintf("CreateCertPoolFromSignedData panicked (%s) on %+v", pnc, m), m, nil)
-							case acc && len(bad) > 0:
-								c.Outcome(sec, "ACCEPTED-INVALID")
-								c.Violation(sec, "ml-accept-invalid/"+strings.Join(bad, "+"), fmt.Sprintf("CreateCertPoolFromSignedData accepts a master list although %s: %+v", strings.Join(bad, ", "), m), m,
-									func() bool { a, _, _, _ := mlRun(m); return a })
-							case acc && !poolOK:
-								c.Outcome(sec, "ACCEPTED-WRONG-POOL")
-								c.Violation(sec, "ml-pool-differs-from-signed-list", fmt.Sprintf("the pool built from a valid master list does not contain exactly the signed certificates: %+v", m), m, nil)
-							case acc:
-								c.Outcome(sec, "accepted-valid")
-							case len(bad) == 0:
-								c.Outcome(sec, "refused-valid(converse,informational)")
-								nConv++
-								c.Note(fmt.Sprintf("valid master list refused: %+v: %s", m, errs))
-							default:
-								c.Outcome(sec, "refused-invalid")
+							for eku := 0; eku < 3; eku++ {
+								n++
+								if !c.Mine() {
+									continue
+								}
+								m := mlCase{"ml", pn, content, md, sig, cert, root, embed, eku}
+								bad := mlTruth(m)
+								acc, poolOK, errs, pnc := mlRun(m)
+								c.AddTraces(1)
+								c.Distinct(fmt.Sprintf("ml|%v", m))
+								switch {
+								case pnc != "":
+									c.Outcome(sec, "panic")
+									c.Violation(sec, "panic/master-list/"+pnc, fmt.Sprintf("CreateCertPoolFromSignedData panicked (%s) on %+v", pnc, m), m, nil)
+								case acc && len(bad) > 0:
+									c.Outcome(sec, "ACCEPTED-INVALID")
+									c.Violation(sec, "ml-accept-invalid/"+strings.Join(bad, "+"), fmt.Sprintf("CreateCertPoolFromSignedData accepts a master list although %s: %+v", strings.Join(bad, ", "), m), m,
+										func() bool { a, _, _, _ := mlRun(m); return a })
+								case acc && !poolOK:
+									c.Outcome(sec, "ACCEPTED-WRONG-POOL")
+									c.Violation(sec, "ml-pool-differs-from-signed-list", fmt.Sprintf("the pool built from a valid master list does not contain exactly the signed certificates: %+v", m), m, nil)
+								case acc:
+									c.Outcome(sec, "accepted-valid")
+								case len(bad) == 0:
+									c.Outcome(sec, "refused-valid(converse,informational)")
+									nConv++
+									c.Note(fmt.Sprintf("valid master list refused: %+v: %s", m, errs))
+								default:
+									c.Outcome(sec, "refused-invalid")
+								}
 							}
 						}
 					}
@@ -1361,7 +1374,7 @@ func runMasterList(c *vc.Ctx) {
 			}
 		}
 	}
-	c.SecBound(sec, fmt.Sprintf("2 profiles x content {genuine, attacker's} x messageDigest {genuine, recomputed} x signature {genuine, attacker key} x signer certificate {genuine, attacker(AKI=genuine SKI), attacker(AKI=attacker SKI), self-signed} x root {genuine, other key with genuine SKI, attacker CSCA}: %d tuples", n))
+	c.SecBound(sec, fmt.Sprintf("2 profiles x content {genuine, attacker's} x messageDigest {genuine, recomputed} x signature {genuine, attacker key} x signer certificate {genuine, attacker(AKI=genuine SKI), attacker(AKI=attacker SKI), self-signed} x root {genuine, other key with genuine SKI, attacker CSCA} x embedded attacker CSCA {no, yes} x signer extendedKeyUsage {masterListSigner, none (= a document signer), serverAuth}: %d tuples", n))
 }
 
 // ------------------------------------------------------------------------------------------------
